@@ -411,6 +411,10 @@ def run(ck: Check) -> None:
     shape.translate(ck, "CodeSites", code_sites.generate)
     # the shape of the parsers' fix-point loops (fixpoint_loops_have_independent_exit, reserved_refs_only_grow)
     shape.translate(ck, "LoopSites", loop_sites.generate)
+    # CPython's str.isprintable as a range table (pattern_literal consults it): cpython_printable_ok is re-decided by the kernel
+    from ..translate import printable
+
+    shape.translate(ck, "Printable", printable.generate)
     ck.search_hooks.append(tpl_search.search)
     ck.prove()
     shape.mark_stale(ck)
@@ -476,7 +480,13 @@ def replay(ck: Check, path: str) -> int:
     data = json.loads(open(path).read())
     case = data.get("input")
     if isinstance(case, dict) and "doc" in case:
-        run_case(ck, ck.campaign("replay"), case)
+        if case.get("formatters"):
+            # a failure that only the default formatters show (judged by the pattern family's judge: formatters-off run first)
+            from . import c01_pattern
+
+            c01_pattern.judge(ck, ck.campaign("replay"), case)
+        else:
+            run_case(ck, ck.campaign("replay"), case)
     for f in ck.failures:
         print("REPLAY-FAILS:", json.dumps(f.classification), f.observed[:300])
     if not ck.failures:
